@@ -513,7 +513,7 @@ def check(rep: Report, tier: str, seed: int) -> None:
     stage2.merge(rep)
     rep.extra["t_lean_stage2_wait_s"] = round(time.time() - t2, 1)
     rep.extra["t_total_s"] = round(time.time() - t0, 1)
-    if rep.broken and not rep.failing:
+    if rep.broken and not rep.unknown_failing():
         search(rep, seed, 40 if quick else 400)
 
 
